@@ -1286,7 +1286,7 @@ func (s *sharedEntryAttributes) populateChoiceCaseResolvers(ctx context.Context)
 			isNew := false
 			var val2 *int32
 			// Query the Index, stored in the treeContext for the per branch highes precedence
-			v := s.treeContext.GetTreeSchemaCacheClient().GetBranchesHighesPrecedence(ctx, append(s.Path(), elem), CacheUpdateFilterExcludeOwner(s.treeContext.GetActualOwner()))
+			v := s.treeContext.GetTreeSchemaCacheClient().GetBranchesHighesPrecedence(ctx, append(s.Path(), elem), CacheUpdateFilterExcludeOwners(s.treeContext.GetOwners()))
 
 			child, childExists := s.childs.GetEntry(elem)
 			// set the value from the tree as well
